@@ -22,6 +22,7 @@ try F7 77b1c92 C11
 try F6 '159af49 cd1dceb' C18
 try F4 5888b36 C12 C03
 try F1 'af89995 06e11e6' C13
-try F2 f5f0f7f C01 C07
+# F2 (f5f0f7f) no longer reverts cleanly after 277f98b: change the failure ordering of Debt::pay back by hand
+# (compare_exchange(.., Release, Relaxed)) and run C01 C07 with VCHECK_NO_REPLAYS=1
 try F3 390053c C01
 echo DONE >> $L
